@@ -506,6 +506,7 @@ func (s *Session) Serve(h Handler) (err error) {
 // If an error is returned (the original error or a different one), it has not
 // been handled fully and must be handled by the caller.
 func (s *Session) sendError(err error) (e error) {
+	verifYield("senderr.enter", "")
 	s.out.Lock()
 	defer s.out.Unlock()
 	s.stateMutex.Lock()
@@ -609,17 +610,22 @@ func handleInputStream(s *Session, handler Handler) (err error) {
 		s.sentStanzaMutex.Lock()
 		readerChan, ok := s.sentStanzas[id]
 		s.sentStanzaMutex.Unlock()
+		verifYield("serve.lookup", id)
 		emptySpace := xml.Name{Local: start.Name.Local}
 		if ok && readerChan.stanzaName == start.Name || readerChan.stanzaName == emptySpace {
 			inner := xmlstream.Inner(r)
+			verifYield("serve.handoff", id)
 			select {
 			case readerChan.c <- iqResponder{
 				r: xmlstream.Wrap(inner, start),
 				c: readerChan.c,
 			}:
+				verifYield("serve.handed", id)
 				<-readerChan.c
 			case <-readerChan.ctx.Done():
+				verifYield("serve.ctxdone", id)
 			}
+			verifYield("serve.resume", id)
 			// Consume the rest of the stream before continuing the loop.
 			_, err = xmlstream.Copy(discard, inner)
 			if err != nil {
@@ -829,6 +835,7 @@ func (lrc *lockReadCloser) Close() error {
 // After the TokenWriteCloser has been closed, any future writes will return
 // io.EOF.
 func (s *Session) TokenWriter() xmlstream.TokenWriteFlushCloser {
+	verifYield("tokenwriter.enter", "")
 	s.out.Lock()
 
 	return &lockWriteCloser{
@@ -857,6 +864,7 @@ func (s *Session) TokenReader() xmlstream.TokenReadCloser {
 // Calling Close() multiple times will only result in one closing
 // </stream:stream> being sent.
 func (s *Session) Close() error {
+	verifYield("close.enter", "")
 	s.out.Lock()
 	defer s.out.Unlock()
 	s.stateMutex.Lock()
@@ -924,6 +932,7 @@ func (s *Session) SetCloseDeadline(t time.Time) error {
 //
 // For more information see "encoding/xml".Encode.
 func (s *Session) Encode(ctx context.Context, v interface{}) error {
+	verifYield("encode.enter", "")
 	s.out.Lock()
 	defer s.out.Unlock()
 
@@ -936,6 +945,7 @@ func (s *Session) Encode(ctx context.Context, v interface{}) error {
 //
 // For more information see "encoding/xml".EncodeElement.
 func (s *Session) EncodeElement(ctx context.Context, v interface{}, start xml.StartElement) error {
+	verifYield("encode.enter", "")
 	s.out.Lock()
 	defer s.out.Unlock()
 
@@ -959,6 +969,7 @@ func (s *Session) SendElement(ctx context.Context, r xml.TokenReader, start xml.
 }
 
 func send(ctx context.Context, s *Session, r xml.TokenReader, start *xml.StartElement) error {
+	verifYield("send.enter", "")
 	s.out.Lock()
 	defer s.out.Unlock()
 
@@ -1016,10 +1027,12 @@ func (s *Session) sendResp(ctx context.Context, id string, payload xml.TokenRead
 		ctx:        ctx,
 	}
 	s.sentStanzaMutex.Unlock()
+	verifYield("resp.registered", id)
 	defer func() {
 		s.sentStanzaMutex.Lock()
 		delete(s.sentStanzas, id)
 		s.sentStanzaMutex.Unlock()
+		verifYield("resp.deregistered", id)
 	}()
 
 	err := s.SendElement(ctx, payload, start)
@@ -1027,10 +1040,13 @@ func (s *Session) sendResp(ctx context.Context, id string, payload xml.TokenRead
 		return nil, err
 	}
 
+	verifYield("resp.sent", id)
 	select {
 	case rr := <-c:
+		verifYield("resp.woke", id)
 		return rr, nil
 	case <-ctx.Done():
+		verifYield("resp.woke", id)
 		return nil, ctx.Err()
 	}
 }
@@ -1038,6 +1054,7 @@ func (s *Session) sendResp(ctx context.Context, id string, payload xml.TokenRead
 // closeInputStream immediately marks the input stream as closed and cancels any
 // deadlines associated with it.
 func (s *Session) closeInputStream() {
+	verifYield("closeinput.enter", "")
 	s.in.Lock()
 	defer s.in.Unlock()
 	s.stateMutex.Lock()
